@@ -2,7 +2,7 @@
     case        : (0 base routes path)      — see harness/router/src/c14.rs
     observation : (base flat expanded match nested) *)
 From Coq Require Import List ZArith NArith.
-From LV Require Import Base.Sexp Base.Bytes Router.Match.
+From LV Require Import Base.Sexp Base.Bytes Router.Match Router.Flat.
 Import ListNotations.
 
 Fixpoint as_seg (fuel : nat) (s : sexp) : seg :=
@@ -44,7 +44,7 @@ Definition s_params (ps : params) : sexp :=
 Definition s_chain (ch : list (nat * bytes)) : sexp :=
   Lst (map (fun im => Lst [snat (fst im); sbytes (snd im)]) ch).
 
-Definition run_C14 (c : sexp) : sexp :=
+Definition run_C14_main (c : sexp) : sexp :=
   let base := as_opt as_bytes (nth_s 1 c) in
   let rs := map (as_route 64) (as_list (nth_s 2 c)) in
   let path := as_bytes (nth_s 3 c) in
@@ -62,3 +62,19 @@ Definition run_C14 (c : sexp) : sexp :=
         | NNo => Lst [Num 0; sbytes path]
         | NYes ch ps rem => Lst [Num 1; sbytes rem; s_chain ch; s_params ps]
         end ].
+
+(** op 1 (cross-check of the two formulations of the reference, not compared with the
+    harness): (flat_any matches k_boundary k_slash_static k_optional k_dslash wf_routes) *)
+Definition run_C14_ref (c : sexp) : sexp :=
+  let base := as_opt as_bytes (nth_s 1 c) in
+  let rs := map (as_route 64) (as_list (nth_s 2 c)) in
+  let path := as_bytes (nth_s 3 c) in
+  Lst [ sbool (flat_any base rs path); sbool (matches base rs path);
+        sbool (k_boundary base rs path); sbool (k_slash_static base rs);
+        sbool (k_optional rs); sbool (k_dslash path); sbool (wf_routes rs) ].
+
+Definition run_C14 (c : sexp) : sexp :=
+  match as_Z (nth_s 0 c) with
+  | 1%Z => run_C14_ref c
+  | _ => run_C14_main c
+  end.
